@@ -4,8 +4,11 @@ import (
 	"context"
 	"encoding/json"
 	"fmt"
+	"io"
 	"net"
 	"net/http"
+
+	"github.com/rs/zerolog"
 
 	"github.com/dadrus/heimdall/internal/config"
 	rulecfg "github.com/dadrus/heimdall/internal/rules/config"
@@ -23,18 +26,25 @@ type UpstreamCase struct {
 	Method  string `json:"method"`
 	Verbose bool   `json:"verbose"`
 	Body    bool   `json:"with_body"`
+	// Trace: the service logs at trace level (the request/response dump middleware is installed only then)
+	Trace bool `json:"log_level_trace,omitempty"`
 }
 
 var upstreamFaults = []string{
 	"connection-refused", "connection-closed-without-an-answer", "answer-is-not-http", "caller-gone-while-waiting-for-the-answer",
-	"connection-closed-in-the-middle-of-the-headers",
+	"connection-closed-in-the-middle-of-the-headers", "early-hints-then-connection-closed",
 }
 
 func evalUpstreamCase(c *engine.Ctx, uc *UpstreamCase) {
 	conf := &config.Configuration{}
 	conf.Serve.Proxy.Respond.Verbose = uc.Verbose
 
-	apps := hx.NewApps(conf, nil)
+	logger := zerolog.Nop()
+	if uc.Trace {
+		logger = zerolog.New(io.Discard).Level(zerolog.TraceLevel)
+	}
+
+	apps := hx.NewAppsWithLogger(conf, nil, logger)
 	defer apps.Close()
 
 	host := apps.Upstream.Host()
@@ -107,6 +117,10 @@ func evalUpstreamCase(c *engine.Ctx, uc *UpstreamCase) {
 		apps.Upstream.Respond = func(w http.ResponseWriter, _ *http.Request) { hijack(w, "this is not http\r\n\r\n") }
 	case "connection-closed-in-the-middle-of-the-headers":
 		apps.Upstream.Respond = func(w http.ResponseWriter, _ *http.Request) { hijack(w, "HTTP/1.1 200 OK\r\nContent-Le") }
+	case "early-hints-then-connection-closed":
+		apps.Upstream.Respond = func(w http.ResponseWriter, _ *http.Request) {
+			hijack(w, "HTTP/1.1 103 Early Hints\r\nLink: </style.css>; rel=preload\r\n\r\n")
+		}
 	case "caller-gone-while-waiting-for-the-answer":
 		apps.Upstream.Respond = func(_ http.ResponseWriter, r *http.Request) {
 			cancel()
@@ -145,13 +159,13 @@ func runUpstreamFaults(c *engine.Ctx, work *int) {
 						continue
 					}
 
-					*work++
+					for _, tr := range []bool{false, true} {
+						*work++
 
-					if !c.Mine(*work) {
-						continue
+						if c.Mine(*work) {
+							evalUpstreamCase(c, &UpstreamCase{Part: "upstream-faults", Fault: f, Method: m, Verbose: v, Body: b, Trace: tr})
+						}
 					}
-
-					evalUpstreamCase(c, &UpstreamCase{Part: "upstream-faults", Fault: f, Method: m, Verbose: v, Body: b})
 				}
 			}
 		}
